@@ -25,17 +25,19 @@ fn field_chars() -> &'static [char] {
                 v.push(c as char);
             }
         }
-        v.extend(['😀', '\u{1}', '\u{7f}', '\u{a0}', '\u{0}', '\u{b}', '\u{301}', '１', 'ｅ', 'à', 'Å']);
+        v.extend(['😀', '\u{1}', '\u{7f}', '\u{a0}', '\u{0}', '\u{b}', '\u{301}', '１', 'ｅ', 'à', 'Å', '\u{feff}']);
         v
     })
 }
 
 /// Strings that look special to parsers or spreadsheets.
-const WORDS: [&str; 32] = [
+const WORDS: [&str; 44] = [
     "~", "NULL",
     // pairs that collide under common 32-bit hashes (FNV-1a, CRC32, Java hashCode)
     "costarring", "liquid", "declinate", "macallums", "altarage", "zinke", "Aa", "BB", "plumless", "buckeroo",
     "NA", "true", "false", "null", "None", "%3B", "%09", "1e5", "-0", "+1", "0x10", "inf", "NaN", "1.0", "00", ".", "-", "+", "\\N", "\\t",
+    // values as annotation pipelines write them
+    "GeneID:1234", "HGNC:5", "ENSG00000223972.5", "protein_coding", "TRUE", "1e3", "0x1F", "+.", "%2C", "%3D", "%25", "exon_number",
 ];
 
 /// First-column values that other tools or formats give a meaning to.
@@ -243,6 +245,11 @@ fn gen_bed(w: &World) -> (Vec<BedModel>, usize) {
                 _ => m.start = m.end.wrapping_add(1),
             }
         }
+        if v.is_empty() && m.chrom.starts_with('\u{feff}') {
+            // a byte order mark at the very start of a file is not content (csv drops it): the
+            // first column of the first record does not begin with one
+            m.chrom.insert(0, 'c');
+        }
         v.push(m);
     }
     (v, k)
@@ -304,7 +311,7 @@ fn attr_chars(d: Dialect) -> &'static [char] {
                 v.push(c);
             }
         }
-        v.extend(['é', '中', '😀', '\u{a0}', '\u{7f}', '\u{1}', '\u{301}', '１', 'à', 'Å']);
+        v.extend(['é', '中', '😀', '\u{a0}', '\u{7f}', '\u{1}', '\u{301}', '１', 'à', 'Å', '\u{feff}']);
         v
     };
     match d {
@@ -355,7 +362,15 @@ fn gen_gff(w: &World, d: Dialect) -> Vec<GffModel> {
         }
         // at most 5 keys — 1 record in 60: at most 6 — because the hash order of the keys is forced
         // by rejection sampling (5! = 120, 6! = 720 expected tries of about a microsecond each)
-        let max_keys = if w.chance(1, 60) { 6 } else { 5 };
+        // (and 1 record in 1500: up to 8 keys, 40 320 expected tries of about a microsecond)
+        let max_keys = if w.chance(1, 1500) {
+            w.probe("record_with_up_to_8_keys");
+            8
+        } else if w.chance(1, 60) {
+            6
+        } else {
+            5
+        };
         while w.more_p(attrs.len() as u64, max_keys, if max_keys > 5 { 9 } else { 2 }, if max_keys > 5 { 10 } else { 3 }) {
             let mut key = match w.draw(11) {
                 // keys that carry meaning in GFF3 / GTF and might be special-cased
@@ -432,7 +447,25 @@ fn gen_gff(w: &World, d: Dialect) -> Vec<GffModel> {
         };
         if w.chance(1, 12) {
             w.probe("related_fields_or_records");
-            match (w.draw(5), v.last()) {
+            match (w.draw(6), v.last()) {
+                (5, Some(prev)) if !prev.attrs.is_empty() => {
+                    // the keys of the previous record again, with other values and other numbers of values
+                    m.attrs = prev
+                        .attrs
+                        .iter()
+                        .map(|(k, _)| {
+                            let mut vals = vec![gen_attr_string(w, d, false)];
+                            while w.more(vals.len() as u64, 3) && w.chance(1, 2) {
+                                vals.push(gen_attr_string(w, d, false));
+                            }
+                            (k.clone(), vals)
+                        })
+                        .collect();
+                    m.order = prev.order.clone();
+                    if w.chance(1, 2) {
+                        m.order.reverse();
+                    }
+                }
                 (0, Some(prev)) => m = prev.clone(), // the identical line twice in a row
                 (1, Some(prev)) => m.seqname = prev.seqname.clone(),
                 (2, _) => m.source = m.seqname.clone(),
@@ -480,6 +513,9 @@ fn gen_gff(w: &World, d: Dialect) -> Vec<GffModel> {
                 _ => m.strand = m.score.clone(),
             }
         }
+        if v.is_empty() && m.seqname.starts_with('\u{feff}') {
+            m.seqname.insert(0, 'c');
+        }
         v.push(m);
     }
     v
@@ -504,16 +540,27 @@ const GTF_TERMS: [&str; 8] = ["5UTR", "3UTR", "inter", "inter_CNS", "intron_CNS"
 /// nondeterministic order in this code path, owned by the simulator through rejection sampling
 /// over fresh `RandomState`s. Returns None if the order could not be obtained (never observed).
 fn multimap_with_order(attrs: &[(String, Vec<String>)], order: &[usize], tries: &mut u64) -> Option<MultiMap<String, String>> {
-    for _ in 0..200_000 {
+    // The order in which the map iterates its keys depends on the hasher and on the keys, not on
+    // the values: try fresh hashers with the first value of every key only, and add the other
+    // values (which go to the end of their key's list and move no key) once the order is right.
+    // Expected number of tries: (number of keys)!
+    let cap = if attrs.len() > 7 { 3_000_000 } else { 200_000 };
+    for _ in 0..cap {
         *tries += 1;
         let mut m: MultiMap<String, String> = MultiMap::new();
         for (k, vs) in attrs {
-            for v in vs {
-                m.insert(k.clone(), v.clone());
-            }
+            m.insert(k.clone(), vs[0].clone());
         }
-        let got: Vec<&String> = m.iter_all().map(|(k, _)| k).collect();
-        if got.len() == order.len() && got.iter().zip(order.iter()).all(|(g, &o)| **g == attrs[o].0) {
+        let ok = {
+            let got: Vec<&String> = m.iter_all().map(|(k, _)| k).collect();
+            got.len() == order.len() && got.iter().zip(order.iter()).all(|(g, &o)| **g == attrs[o].0)
+        };
+        if ok {
+            for (k, vs) in attrs {
+                for v in &vs[1..] {
+                    m.insert(k.clone(), v.clone());
+                }
+            }
             return Some(m);
         }
     }
